@@ -263,7 +263,8 @@ def run(ctx):
     import mgr_common as mc
     ncases = []
     for i in range(ctx.pick(120, 2500)):
-        c = mc.gen_history(ctx.rng, ["assign", "mixed", "dag", "frozen", "windows"][i % 5], nofun=True, attrdict=(i % 2 == 0))
+        c = mc.gen_history(ctx.rng, ["assign", "mixed", "dag", "frozen", "windows"][i % 5], nofun=True, attrdict=(i % 2 == 0),
+                           values="mixed" if i % 3 == 2 else "int")
         lv = mc.leaves_of(c)
         if ctx.rng.random() < 0.25:         # the state at the moment of pickling: frozen / unfrozen again
             c["ops"] += [["freeze"]] if ctx.rng.random() < 0.7 else [["freeze"], ["unfreeze"]]
